@@ -2,89 +2,86 @@ package main
 
 import (
 	"fmt"
-	"io"
-	"strings"
 
 	"github.com/freeconf/yang/node"
 	"github.com/freeconf/yang/nodeutil"
 	"github.com/freeconf/yang/parser"
-	"github.com/freeconf/yang/source"
 )
-
-func stringSource(ms map[string]string) source.Opener {
-	return func(n, e string) (io.Reader, error) {
-		if y, ok := ms[n]; ok {
-			return strings.NewReader(y), nil
-		}
-		return nil, nil
-	}
-}
 
 func try(name string, f func() string) {
 	defer func() {
 		if r := recover(); r != nil {
-			fmt.Printf("%-40s PANIC %v\n", name, r)
+			fmt.Printf("%-50s PANIC %v\n", name, r)
 		}
 	}()
-	fmt.Printf("%-40s %s\n", name, f())
+	fmt.Printf("%-50s %s\n", name, f())
+}
+
+func semi(t string) string {
+	if t[len(t)-1] == '}' {
+		return t
+	}
+	return t + ";"
+}
+
+type Row struct {
+	K interface{}
+	V string
+}
+type Root struct {
+	L []*Row
 }
 
 func main() {
-	b := `module b { namespace "urn:b"; prefix bp; revision 0; grouping g { container gc { leaf gl {type string;} } } container c { leaf x {type string;} } }`
-	a := `module a { namespace "urn:a"; prefix ap; revision 0; import b {prefix bp;} uses bp:g; container c { leaf z {type string;} }
-	 container fruit { leaf apple { type string; } leaf pear { type string; } }
-	 container top { container gc { leaf q { type string; } } }
-	 list country { key name; leaf name { type string; } container detail { leaf ally { type string; } } list city { key "n i"; leaf n { type string; } leaf i { type int32; } leaf pop { type int32; } } }
-	 list fruits { key name; leaf name{type string;} choice shipment { case water { container boat {leaf n{type string;}} } case air { container plane {leaf n{type string;}} } } }
-	 list nokey { config false; leaf a {type string;} } }`
-	ms := map[string]string{"a": a, "b": b}
-	m, err := parser.LoadModule(stringSource(ms), "a")
-	if err != nil {
-		panic(err)
-	}
-	data := `{"gc":{"gl":"GL"},"c":{"z":"Z"},"fruit":{"apple":"A","pear":"P"},"top":{"gc":{"q":"Q"}},"country":[{"name":"US","detail":{"ally":"UK"},"city":[{"n":"NY","i":1,"pop":8}]}],"fruits":[{"name":"apple","boat":{"n":"B"}}],"nokey":[{"a":"one"},{"a":"two"}]}`
-	root := func() *node.Selection {
-		n, _ := nodeutil.ReadJSON(data)
-		return node.NewBrowser(m, n).Root()
-	}
-	show := func(s *node.Selection, err error) string {
+	for _, kt := range []struct{ typ, k1, k2, find string }{
+		{"union { type int32; type string; }", `1`, `"x"`, "l=x"},
+		{"bits { bit a; bit b; }", `"a"`, `"a b"`, "l=a%20b"},
+		{"binary", `"AQI="`, `"AwQ="`, "l=AwQ%3D"},
+		{"enumeration { enum one; enum two; }", `"one"`, `"two"`, "l=two"},
+		{"boolean", `true`, `false`, "l=false"},
+		{"decimal64 { fraction-digits 2; }", `1.5`, `2.25`, "l=2.25"},
+		{"identityref { base b; }", `"i1"`, `"i2"`, "l=i2"},
+		{"uint64", `1`, `18446744073709551615`, "l=18446744073709551615"},
+	} {
+		y := `module k { namespace "urn:k"; prefix k; revision 0; identity b; identity i1 { base b; } identity i2 { base b; } list l { key k; leaf k { type ` + semi(kt.typ) + ` } leaf v { type string; } } }`
+		m, err := parser.LoadModuleFromString(nil, y)
 		if err != nil {
-			return "error " + err.Error()
+			fmt.Println("load", kt.typ, err)
+			continue
 		}
-		if s == nil {
-			return "nil"
+		doc := `{"l":[{"k":` + kt.k1 + `,"v":"1"},{"k":` + kt.k2 + `,"v":"2"}]}`
+		for _, be := range []string{"node-map", "reflect-map", "node-struct", "reflect-struct"} {
+			try(be+" "+(kt.typ+"        ")[:8], func() string {
+				var root node.Node
+				switch be {
+				case "node-map":
+					root = &nodeutil.Node{Object: map[string]interface{}{}}
+				case "reflect-map":
+					root = nodeutil.ReflectChild(map[string]interface{}{})
+				case "node-struct":
+					root = &nodeutil.Node{Object: &Root{}}
+				case "reflect-struct":
+					root = nodeutil.ReflectChild(&Root{})
+				}
+				b := node.NewBrowser(m, root)
+				src, _ := nodeutil.ReadJSON(doc)
+				if err := b.Root().UpsertFrom(src); err != nil {
+					return "load: " + err.Error()
+				}
+				s, err := b.Root().Find(kt.find)
+				if err != nil || s == nil {
+					return fmt.Sprint("find: ", s, err)
+				}
+				one, err := nodeutil.WriteJSON(s)
+				if err != nil {
+					return "read: " + err.Error()
+				}
+				if err := s.Delete(); err != nil {
+					return "delete: " + err.Error()
+				}
+				all, err := nodeutil.WriteJSON(b.Root())
+				return fmt.Sprint(one, " ; after delete ", all, err)
+			})
 		}
-		return "path=" + s.Path.String() + " meta=" + s.Meta().Ident()
 	}
-	try("1 detail.Find(ally)", func() string { d, _ := root().Find("country=US/detail"); return show(d.Find("ally")) })
-	try("1 detail.Find(../city=NY,1/pop)", func() string { d, _ := root().Find("country=US/detail"); return show(d.Find("../city=NY,1/pop")) })
-	try("4 fruit/bogus:apple", func() string { return show(root().Find("fruit/bogus:apple")) })
-	try("4 ap:fruit", func() string { return show(root().Find("ap:fruit")) })
-	try("4 a:fruit", func() string { return show(root().Find("a:fruit")) })
-	try("5 bp:c", func() string { return show(root().Find("bp:c")) })
-	try("5 b:c", func() string { return show(root().Find("b:c")) })
-	try("6 a:gc", func() string { return show(root().Find("a:gc")) })
-	try("6 b:gc", func() string { return show(root().Find("b:gc")) })
-	try("7 fruits=apple/shipment", func() string { return show(root().Find("fruits=apple/shipment")) })
-	try("8 top%2Fgc", func() string { return show(root().Find("top%2Fgc")) })
-	try("8 top/..%2Fc", func() string { return show(root().Find("top/..%2Fc")) })
-	try("9 Path.Equal", func() string {
-		x, _ := root().Find("fruit/apple")
-		y, _ := root().Find("fruit/pear")
-		return fmt.Sprint(x.Path.Equal(y.Path))
-	})
-	for _, d := range []string{`{"a:gc":{"gl":"GL"}}`, `{"b:gc":{"gl":"GL"}}`, `{"gc":{"gl":"GL"}}`} {
-		try("read "+d, func() string {
-			n, _ := nodeutil.ReadJSON(d)
-			w := nodeutil.JSONWtr{QualifyNamespace: true}
-			o, err := w.JSON(node.NewBrowser(m, n).Root())
-			return fmt.Sprint(o, err)
-		})
-	}
-	try("xml", func() string {
-		n, _ := nodeutil.ReadJSON(`{"gc":{"gl":"GL"}}`)
-		o, err := nodeutil.WriteXML(func() *node.Selection { s, _ := node.NewBrowser(m, n).Root().Find("gc"); return s }())
-		return fmt.Sprint(o, err)
-	})
-	try("10 nokey=zzz", func() string { return show(root().Find("nokey=zzz")) })
 }
